@@ -22,7 +22,7 @@ def demo_cmd(out, n):
     howto = open(os.path.join(out, "demo_%s_howto.txt" % n)).read()
     m = re.findall(r"(cargo (?:test|run)[^\n]*(?:demo[a-z0-9_]*_%s|--example)[^\n]*)" % n, howto)
     cmds = [c.strip() for c in m if "cp " not in c and "--workspace" not in c]
-    return cmds[0] if cmds else None
+    return re.split(r"\s+[;#]", cmds[0])[0].strip() if cmds else None
 
 
 def append_target(out, n):
@@ -91,6 +91,9 @@ def confirm(prop, n):
 def detect(prop, n, checks):
     out = "/tmp/mut_%s_out" % prop
     patch = os.path.join(out, "patch_%s.diff" % n)
+    kept = os.path.join("/verif/seeded", "%s-%s" % (prop, n), "patch.diff")
+    if os.path.exists(kept):
+        patch = kept
     rc, o = sh("git -C /repo status --short | grep -v '^??' | head", cwd="/repo")
     if o.strip():
         return {"error": "/repo not clean: " + o}
@@ -105,12 +108,41 @@ def detect(prop, n, checks):
                 res["checks"][c] = {"rc": rcc, "lines": lines[:4], "detail": detail}
     finally:
         sh("git -C /repo checkout -- .")
+        # evidence files describe the unchanged tree: put them back
+        sh("git -C /verif checkout -- evidence")
     return res
+
+
+def keep(prop, n):
+    """store a confirmed change under /verif/seeded/<prop>-<n>/ (patch.diff, demonstration, meta.json)"""
+    out = "/tmp/mut_%s_out" % prop
+    dst = os.path.join("/verif/seeded", "%s-%s" % (prop, n))
+    os.makedirs(dst, exist_ok=True)
+    shutil.copy(os.path.join(out, "patch_%s.diff" % n), os.path.join(dst, "patch.diff"))
+    for f in os.listdir(out):
+        if f.startswith("demo_%s" % n) and not f.endswith(".log"):
+            shutil.copy(os.path.join(out, f), os.path.join(dst, f))
+    meta = json.load(open(os.path.join(out, "meta_%s.json" % n)))
+    meta["seeded_id"] = "%s-%s" % (prop, n)
+    for kind in ("confirm", "detect"):
+        p = "/tmp/seedres/%s_%s_%s.json" % (kind, prop, n)
+        if os.path.exists(p):
+            r = json.load(open(p))
+            if kind == "confirm":
+                meta["confirmed_by_me"] = {k: r.get(k) for k in ("demo_cmd", "append_to", "demo_without_patch_rc", "demo_with_patch_rc", "baseline_passed", "baseline_ok", "confirmed")}
+                meta["confirmed_by_me"]["how"] = "tools/seedtest.py confirm in a scratch git worktree of /repo: baseline suite with the patch, demonstration with and without the patch"
+            else:
+                meta["checks_run"] = {c: {"exit": v["rc"], "lines": v["lines"], "detail": v["detail"]} for c, v in r.get("checks", {}).items()}
+                meta["detected_by"] = [c for c, v in r.get("checks", {}).items() if v["rc"] == 1 and any(l.startswith("VIOLATION") for l in v["lines"])]
+    json.dump(meta, open(os.path.join(dst, "meta.json"), "w"), indent=1)
+    return meta
 
 
 if __name__ == "__main__":
     mode, prop, n = sys.argv[1], sys.argv[2], sys.argv[3]
     if mode == "confirm":
         print(json.dumps(confirm(prop, n), indent=1))
+    elif mode == "keep":
+        print(json.dumps(keep(prop, n), indent=1)[:400])
     else:
         print(json.dumps(detect(prop, n, sys.argv[4:]), indent=1))
